@@ -9,7 +9,7 @@
    lookup in that state.  The only hypothesis, `shadow_wf w`, says that the parent loader binds a type under
    the key of its name (checked on every case of the correspondence run). *)
 From Coq Require Import ZArith NArith Bool List String Ascii Lia.
-From PcoreV Require Import Model.Base Model.FileLoader Model.FileLoaderText Proofs.FileLoaderProofs Proofs.FileLoaderTextProofs.
+From PcoreV Require Import Model.Base Model.FileLoader Model.FileLoaderText Proofs.FileLoaderProofs Proofs.FileLoaderTextProofs Proofs.FileLoaderIff.
 Import ListNotations.
 Local Open Scope nat_scope.
 
@@ -134,6 +134,49 @@ Theorem C15_good_file_found :
     step w (indexes_of w) (S n) s (OpLoad ctx name) = (leaf_state s 0 k p v, (OFound v, [(0, p)])).
 Proof. exact step_leaf_file. Qed.
 Print Assumptions C15_good_file_found.
+
+(* ---- found IF AND ONLY IF a definition file exists: every topology, every lookup sequence ------------------------ *)
+(* `consulted w k i`: loader i is one the top loader asks for k - the one loader (TopSingle), every loader of a chain
+   (TopChain, any length), for a dependency loader (any number of module loaders, module_path included) the module the
+   first segment of a qualified name selects, else all of them.  `defined_file w i k`: loader i answers for k (`routed`)
+   and holds, at the path its index derives from k (`origin_of`), a well-formed file that declares k (or a bare
+   expression; init_typeset.pp for a module's own name).  `clean_run w fuel ops`: no lookup of the sequence reported an
+   error (an error in a REFERENCED file legitimately propagates to the lookup of the referring name, and a TypeSet whose
+   member lookup failed keeps its placeholder - C15_example_error_history_needed shows the hypothesis cannot be dropped).
+   Then, in the state reached by `ops` (any operations, any contexts, references between files, cycles, stale cached
+   misses of other loaders, any recursion depth), a lookup that does not itself report an error
+     - FINDS the name when a consulted loader has a definition file for it, and the definition carries the name;
+     - finds it ONLY when a file (or TypeSet member declaration, or the parent) backs it. *)
+Theorem C15_found_iff_file_all_topologies :
+  forall w fuel ops ctx name s' o rd,
+    shadow_wf w -> clean_run w fuel ops ->
+    lookup_after w fuel ops ctx name = (s', (o, rd)) -> clean_out (o, rd) = true ->
+    ((exists i, consulted w (norm_name name) i /\ defined_file w i (norm_name name)) ->
+     exists v, o = OFound v /\ tv_name v = norm_name name) /\
+    ((exists v, o = OFound v) -> exists v0, file_or_parent w (norm_name name) v0).
+Proof. exact found_iff_file. Qed.
+Print Assumptions C15_found_iff_file_all_topologies.
+
+(* the same without the hypothesis on the outcome of the last lookup: a name with a definition file in a consulted
+   loader is never answered "not found" (found, or the error of a file it depends on) *)
+Theorem C15_definition_file_never_missed :
+  forall w fuel ops ctx name s' o rd,
+    clean_run w fuel ops -> lookup_after w fuel ops ctx name = (s', (o, rd)) ->
+    (exists i, consulted w (norm_name name) i /\ defined_file w i (norm_name name)) -> o <> ONotFound.
+Proof. exact defined_not_missed. Qed.
+Print Assumptions C15_definition_file_never_missed.
+
+(* as an equivalence: for a name that the parent does not bind and that nothing but definition files of consulted
+   loaders stands for (no TypeSet member declaration, no file in a loader that is not asked) *)
+Theorem C15_found_iff_file_equivalence :
+  forall w fuel ops ctx name s' o rd,
+    shadow_wf w -> clean_run w fuel ops ->
+    lookup_after w fuel ops ctx name = (s', (o, rd)) -> clean_out (o, rd) = true ->
+    shadow w (norm_name name) = None ->
+    (forall i v, backed w i (norm_name name) v -> consulted w (norm_name name) i /\ defined_file w i (norm_name name)) ->
+    ((exists v, o = OFound v) <-> (exists i, consulted w (norm_name name) i /\ defined_file w i (norm_name name))).
+Proof. exact found_iff_file_equiv. Qed.
+Print Assumptions C15_found_iff_file_equivalence.
 
 (* ---- a chain of file-based loaders: a binding of a loader up the chain is found through the loaders below ------ *)
 (* Loaders 0 .. length-1, the parent of loader i is loader i+1 (TopChain; the top loader, through which the lookup
@@ -402,3 +445,103 @@ Example C15_example_session :
       (ONotFound, []);
       (OFound {| tv_name := s "mymod::bus"; tv_marker := 131; tv_ts := false |}, []) ].
 Proof. vm_compute. reflexivity. Qed.
+
+(* ---- non-vacuity of C15_found_iff_file_all_topologies ---------------------------------------------------------------- *)
+(* chain: Moda::Thing (module loader 0, refers to a TypeSet member of the environment's loader 1) after an error-free
+   sequence that left a stale cached miss in loader 0 *)
+Example C15_example_iff_chain :
+  let ops := [OpLoad (-1) (s "Shapes::Circle"); OpLoad 0 (s "Plain"); OpLoad 1 (s "Nope")] in
+  let k := norm_name (s "MODA::thing") in
+  clean_run ex_chain 8 ops /\ consulted ex_chain k 0 /\ defined_file ex_chain 0 k /\
+  consulted ex_chain (norm_name (s "Plain")) 1 /\ defined_file ex_chain 1 (norm_name (s "Plain")) /\
+  fst (snd (lookup_after ex_chain 8 ops 0 (s "MODA::thing"))) = OFound {| tv_name := k; tv_marker := 10; tv_ts := false |}.
+Proof.
+  cbv zeta. split; [unfold clean_run; vm_compute; reflexivity|]. split; [vm_compute; apply le_S, le_n|].
+  split.
+  { split; [right; split; vm_compute; reflexivity|]. eexists _, _, _. split; [vm_compute; reflexivity|]. split; [vm_compute; reflexivity|].
+    split; vm_compute; reflexivity. }
+  split; [vm_compute; apply le_n|]. split; [|vm_compute; reflexivity].
+  split; [left; vm_compute; reflexivity|]. eexists _, _, _. split; [vm_compute; reflexivity|]. split; [vm_compute; reflexivity|].
+  split; vm_compute; reflexivity.
+Qed.
+
+(* dependency loader over two module loaders: a qualified name goes to the module its first segment names *)
+Definition ex_dep : world :=
+  {| w_top := TopDep;
+     w_mods := [ {| m_name := s "moda";
+                    m_walk := [ ex_file "types" true CNoDef 0;
+                                ex_file "types/thing.pp" false (CGood (s "Moda::Thing") [s "Modb::Item"; s "Moda::Thing"]) 10 ] |};
+                 {| m_name := s "modb";
+                    m_walk := [ ex_file "types" true CNoDef 0;
+                                ex_file "types/item.pp" false (CGood (s "Modb::Item") [s "Moda::Thing"]) 20 ] |} ];
+     w_shadow := [] |}.
+
+Example C15_example_iff_dep :
+  let ops := [OpLoad 0 (s "Modb::Nope"); OpLoad (-1) (s "Moda::Thing")] in
+  let k := norm_name (s "modb::ITEM") in
+  clean_run ex_dep 8 ops /\ consulted ex_dep k 1 /\ ~ consulted ex_dep k 0 /\ defined_file ex_dep 1 k /\
+  fst (snd (lookup_after ex_dep 8 ops (-1) (s "modb::ITEM"))) = OFound {| tv_name := k; tv_marker := 20; tv_ts := false |}.
+Proof.
+  cbv zeta. split; [unfold clean_run; vm_compute; reflexivity|]. split; [vm_compute; reflexivity|].
+  split; [vm_compute; discriminate|]. split; [|vm_compute; reflexivity].
+  split; [right; split; vm_compute; reflexivity|]. eexists _, _, _. split; [vm_compute; reflexivity|]. split; [vm_compute; reflexivity|].
+  split; vm_compute; reflexivity.
+Qed.
+
+(* the hypotheses of C15_found_iff_file_equivalence are satisfiable: one global loader, one file *)
+Definition ex_one : world :=
+  {| w_top := TopSingle;
+     w_mods := [ {| m_name := [];
+                    m_walk := [ ex_file "types" true CNoDef 0; ex_file "types/foo.pp" false (CGood (s "Foo") []) 10 ] |} ];
+     w_shadow := [] |}.
+
+Example C15_example_iff_equiv :
+  let k := norm_name (s "FOO") in
+  shadow ex_one k = None /\ clean_run ex_one 4 [OpLoad 0 (s "Bar")] /\
+  (forall i v, backed ex_one i k v -> consulted ex_one k i /\ defined_file ex_one i k) /\
+  (exists i, consulted ex_one k i /\ defined_file ex_one i k).
+Proof.
+  cbv zeta. split; [vm_compute; reflexivity|]. split; [unfold clean_run; vm_compute; reflexivity|].
+  assert (Hdf : defined_file ex_one 0 (norm_name (s "FOO"))).
+  { split; [left; vm_compute; reflexivity|]. eexists _, _, _. split; [vm_compute; reflexivity|]. split; [vm_compute; reflexivity|].
+    split; vm_compute; reflexivity. }
+  split; [|exists 0; split; [reflexivity|exact Hdf]].
+  intros i v Hb. destruct i as [|i].
+  - split; [reflexivity|exact Hdf].
+  - exfalso. destruct Hb as [(p & f & Ho & _)|(kp & p & f & d & ms & j & mn & Ho & _)];
+      rewrite origin_of_out_of_range in Ho; try discriminate Ho; cbn; apply le_n_S, Nat.le_0_l.
+Qed.
+
+(* the hypothesis `clean_run` cannot be dropped: the TypeSet file types/shapes.pp is well-formed and correctly named, but
+   the lookup of its member Circle reaches the malformed types/shapes/circle.pp; the first lookup of Shapes reports that
+   file, the placeholder of Shapes stays, the second lookup answers "not found" *)
+Definition ex_err : world :=
+  {| w_top := TopSingle;
+     w_mods := [ {| m_name := [];
+                    m_walk := [ ex_file "types" true CNoDef 0;
+                                ex_file "types/shapes" true CNoDef 0;
+                                ex_file "types/shapes/circle.pp" false (CMalformed 2) 30;
+                                ex_file "types/shapes.pp" false (CTypeSet (s "Shapes") [s "Circle"]) 20 ] |} ];
+     w_shadow := [] |}.
+
+Example C15_example_error_history_needed :
+  consulted ex_err (norm_name (s "Shapes")) 0 /\ defined_file ex_err 0 (norm_name (s "Shapes")) /\
+  run ex_err 8 [OpLoad (-1) (s "Shapes"); OpLoad (-1) (s "Shapes")] =
+    [ (OErr (EParse 0 (s "types/shapes/circle.pp") 2), [(0, s "types/shapes.pp"); (0, s "types/shapes/circle.pp")]);
+      (ONotFound, []) ].
+Proof.
+  split; [reflexivity|]. split; [|vm_compute; reflexivity].
+  split; [left; vm_compute; reflexivity|]. eexists _, _, _. split; [vm_compute; reflexivity|]. split; [vm_compute; reflexivity|].
+  split; vm_compute; reflexivity.
+Qed.
+
+(* the check that the correspondence run evaluates on the OBSERVED outcomes (Corr/CorrC15.v c15_iff_ok = iff_ok_from, the
+   decidable reading of C15_definition_file_never_missed) rejects a "not found" for a name with a definition file, accepts
+   it after an error, and accepts the model's own run (iff_ok_run: for every world, fuel and operation sequence) *)
+Example C15_example_iff_check :
+  iff_ok_from ex_one [OpLoad 0 (s "Foo")] [(ONotFound, [])] = false /\
+  iff_ok_from ex_chain [OpLoad 0 (s "Plain"); OpLoad 0 (s "Moda::Thing")]
+              [(OFound {| tv_name := s "plain"; tv_marker := 40; tv_ts := false |}, [(1, s "types/plain.pp")]); (ONotFound, [])] = false /\
+  iff_ok_from ex_err [OpLoad (-1) (s "Shapes"); OpLoad (-1) (s "Shapes")] (run ex_err 8 [OpLoad (-1) (s "Shapes"); OpLoad (-1) (s "Shapes")]) = true /\
+  (forall w fuel ops, iff_ok_from w ops (run w fuel ops) = true).
+Proof. split; [vm_compute; reflexivity|]. split; [vm_compute; reflexivity|]. split; [vm_compute; reflexivity|exact iff_ok_run]. Qed.
